@@ -242,12 +242,15 @@ Qed.
 
 Lemma pkt_clause3 l b now : bytes_ok b ->
   sample_taken (lobs_of l) (kobs_of l) (lobs_of (pkt_link l b now)) (kobs_of (pkt_link l b now))
-  && negb (echo_ok (lobs_of l) b now) = false.
+  && (negb (echo_ok (lobs_of l) b now) || o_waiting (lobs_of (pkt_link l b now))) = false.
 Proof.
   intros Hb. destruct (sample_taken _ _ _ _) eqn:Es; [|reflexivity]. cbn [andb].
   assert (Hne : rtt_core (l_rtt (pkt_link l b now)) <> rtt_core (l_rtt l)).
   { intros Heq. rewrite (sample_taken_false l _ Heq) in Es. discriminate. }
-  destruct (pkt_link_sample l b now Hne) as (Hw & ts & Hts & Hr & _).
+  destruct (pkt_link_sample l b now Hne) as (Hw & ts & Hts & Hr & _ & _ & _ & Hrt).
+  assert (W' : o_waiting (lobs_of (pkt_link l b now)) = false).
+  { unfold lobs_of. cbn [o_waiting]. rewrite Hrt. reflexivity. }
+  rewrite W', orb_false_r.
   unfold echo_ok, lobs_of. cbn [o_waiting]. rewrite Hw, <- (ka_ts_spec b Hb), Hts.
   change KA_RTT_CAP_MS with 10000 in Hr.
   replace (0 <? now - ts) with true by lia. replace (now - ts <=? 10000) with true by lia. reflexivity.
